@@ -77,10 +77,16 @@ fn main() {
             ok &= same;
             std::process::exit(if ok { 0 } else { 2 });
         }
+        "hist" => {
+            // debugging aid: replay an inline history "Op(k,a);Op(k,a);..." on an inline spec
+            let spec: ShardSpec = serde_json::from_str(&args[2]).expect("spec json");
+            let hist: Vec<String> = args[3].split(';').filter(|s| !s.is_empty()).map(|s| s.to_string()).collect();
+            std::process::exit(plan::replay_any(&spec, &hist, false));
+        }
         "one" => {
             // debugging aid: run one shard spec given inline as JSON, print the result
             let spec: ShardSpec = serde_json::from_str(&args[2]).expect("spec json");
-            let res = shard::run_shard(&spec, None, None);
+            let res = plan::run_any_shard(&spec, None, None);
             println!("{}", serde_json::to_string_pretty(&res).unwrap());
         }
         _ => {
